@@ -3,6 +3,7 @@ package vm_color
 import (
 	"encoding/json"
 	"fmt"
+	"reflect"
 	"unsafe"
 
 	"github.com/goccy/go-json/internal/encoder"
@@ -101,6 +102,10 @@ func ptrToUnsafePtr(p uintptr) unsafe.Pointer {
 	return *(*unsafe.Pointer)(unsafe.Pointer(&p))
 }
 func ptrToInterface(code *encoder.Opcode, p uintptr) interface{} {
+	if k := code.Type.Kind(); (k == reflect.Struct || k == reflect.Array) && p != 0 && !runtime.IfaceIndir(code.Type) {
+		// p is the address of the value; an interface holds a pointer-shaped struct or array as the pointer itself
+		p = ptrToPtr(p)
+	}
 	return *(*interface{})(unsafe.Pointer(&emptyInterface{
 		typ: code.Type,
 		ptr: *(*unsafe.Pointer)(unsafe.Pointer(&p)),
